@@ -1347,6 +1347,17 @@ func (s *sim) localTx(n *nodeSim, subs []SubOp, step int, refuse bool) error {
 			}
 			return false, nil
 		})
+		if err != nil && errors.Is(err, errTimeout) && cerr == nil {
+			// The commit reported success and the operation never showed up as a new one. What
+			// the leaseholder's engine holds is no matter of timing: if the write is there under
+			// a version that does not exceed one this leaseholder issued before, the leaseholder
+			// numbered it at or below its own earlier operations - its gossip store and every
+			// peer drop it as stale and the replicas diverge.
+			if st, rerr := readStored(s.ctx, at.engine, w.key); rerr == nil && st.HasDig && st.ID.LH == int(at.key) &&
+				st.ID.Ver <= at.issued && st.Del == w.del && (w.del || (st.HasVal && st.Val == w.val)) {
+				return s.violate("leaseholder-issued-non-increasing-version", "step %d: the committed write of %s on %s is stored as %s although %s had already issued version %d: versions issued by one leaseholder must increase (the operation never became a new one in its gossip store)", step, w.key, at.label(), st, at.label(), at.issued)
+			}
+		}
 		if err != nil {
 			return err
 		}
